@@ -64,7 +64,7 @@ pub(crate) fn flag_load_checks_publication(this: &std::sync::atomic::AtomicUsize
 
 /// `<Op as EventSource>::subscribe` from a concrete pre-state. `mk(io, timed)` builds the real operation struct.
 /// TIMER: 0 = the operation has no time-out, 1 = a time-out is set, 2 = the operation never arms a timer (accept)
-pub(crate) fn subscribe_from<S: EventSource, const READY: bool, const CANCELLED: bool, const TIMER: u8>(mk: fn(&'static IoData, bool) -> S) {
+pub(crate) fn subscribe_from<S: EventSource, const READY: bool, const CANCELLED: bool, const TIMER: u8, MK: Fn(&'static IoData, bool) -> S>(mk: MK) {
     sup::trace_reset();
     sup::scheduler_reset();
     let h = sup::enter_coroutine();
@@ -105,7 +105,7 @@ pub(crate) fn subscribe_from<S: EventSource, const READY: bool, const CANCELLED:
 
 /// ordering inside subscribe: every read of the readiness flag happens with the coroutine already published, and
 /// there is at least one such read
-pub(crate) fn subscribe_order<S: EventSource>(mk: fn(&'static IoData, bool) -> S) {
+pub(crate) fn subscribe_order<S: EventSource, MK: Fn(&'static IoData, bool) -> S>(mk: MK) {
     sup::trace_reset();
     sup::scheduler_reset();
     let _h = sup::enter_coroutine();
@@ -122,4 +122,121 @@ pub(crate) fn subscribe_order<S: EventSource>(mk: fn(&'static IoData, bool) -> S
     unsafe { CHECK_FLAG_LOADS = false };
     assert!(unsafe { FLAG_LOADS } >= 1, "[C17.2-recheck-exists] subscribe must re-read the readiness flag after publishing the coroutine");
     sup::leave_coroutine();
+}
+
+// ------------------------------------------------------------------------------------------------
+// caller side: the try-io / re-check / yield loop (`done`) of every operation, against a scripted kernel
+// ------------------------------------------------------------------------------------------------
+pub(crate) static mut SYSCALLS: usize = 0;
+pub(crate) static mut YIELDS: usize = 0;
+/// script of the kernel: result of the k-th attempt: 0 would-block, 1 Ok, 2 a fatal OS error (ECONNRESET)
+pub(crate) static mut SCRIPT: [u8; 3] = [0; 3];
+/// the selector reports readiness (sets the flag) right after the k-th attempt returned would-block (usize::MAX: never)
+pub(crate) static mut EDGE_AFTER: usize = usize::MAX;
+pub(crate) static mut OK_N: usize = 0;
+
+/// what every stubbed syscall does first; returns the scripted outcome of this attempt
+pub(crate) fn syscall_step() -> u8 {
+    unsafe {
+        let io = &*IO;
+        assert!(io.io_flag.load(Ordering::Relaxed) == 0, "[C17.1-clear-before-syscall] the readiness flag must be cleared BEFORE the non-blocking syscall (an edge that arrives during the syscall would be wiped out afterwards)");
+        let k = SYSCALLS;
+        SYSCALLS += 1;
+        assert!(k == 0 || (k <= 3 && SCRIPT[k - 1] == 0), "[C17.1-stops-at-final-result] another attempt is made although the previous one returned a final result (success or a fatal error): that result is lost");
+        if k >= 3 {
+            kani::assume(false);
+        }
+        let r = SCRIPT[k];
+        if r == 0 && EDGE_AFTER == k {
+            // the kernel became ready right after this attempt returned would-block: the selector sets the flag
+            io.io_flag.fetch_or(1, Ordering::Release);
+        }
+        r
+    }
+}
+
+/// contract of the suspension: the coroutine is resumed when the socket became ready (the selector sets the flag
+/// and takes the coroutine). Reaching this point while an edge is already recorded in the flag is the bug.
+pub(crate) fn yield_stub<T: EventSource>(_r: &T, _is_co: bool) {
+    unsafe {
+        let io = &*IO;
+        YIELDS += 1;
+        assert!(io.io_flag.load(Ordering::Relaxed) == 0, "[C17.1-recheck-before-yield] the caller suspends although the readiness flag is set: the edge was consumed and nobody will wake it");
+        // resumed by a later readiness event
+        io.io_flag.fetch_or(1, Ordering::Release);
+    }
+}
+
+/// `co_io_result` restricted to its coroutine branch (verbatim copy of that branch). The thread branch reads a
+/// lazily initialised thread-local with a destructor, which reaches `catch_unwind` and crashes kani-compiler 0.68.
+pub(crate) fn co_io_result_coroutine_branch(is_coroutine: bool) -> std::io::Result<()> {
+    assert!(is_coroutine);
+    match crate::yield_now::get_co_para() {
+        None => Ok(()),
+        Some(err) => Err(err),
+    }
+}
+
+pub(crate) const FATAL: i32 = libc::ECONNRESET;
+
+/// the `done` loop of one operation in coroutine context against ONE concrete kernel script (a symbolic script merges
+/// `io::Error` values, and every merged error drags the bit-packed Repr decoding and the `Box<dyn Error>` drop glue into
+/// the verification condition). The flag is stale (set) on entry; the byte count of a successful attempt stays symbolic.
+pub(crate) fn done_scenario<S, R, MK: Fn(&'static IoData, bool) -> S, DN: Fn(&mut S) -> std::io::Result<R>, CK: Fn(&R) -> bool>(mk: MK, done: DN, check_ok: CK, script: [u8; 3], edge_after: usize, pending: bool) {
+    let _h = sup::enter_coroutine();
+    let io = mk_io();
+    unsafe {
+        SYSCALLS = 0;
+        YIELDS = 0;
+        SCRIPT = script;
+        OK_N = kani::any();
+        kani::assume(OK_N <= 4);
+        EDGE_AFTER = edge_after;
+    }
+    if pending {
+        sup::set_current_para(Some(std::io::Error::from(std::io::ErrorKind::TimedOut)));
+    }
+    // a stale flag from an earlier operation
+    io.io_flag.store(1, Ordering::Relaxed);
+    let mut r = mk(io, false);
+    let res = done(&mut r);
+    std::mem::forget(r);
+    if pending {
+        assert!(unsafe { SYSCALLS } == 0, "[C17.1-pending-error-first] a pending time-out / cancel result is returned before any syscall");
+        assert!(res.as_ref().err().map(|e| e.kind()) == Some(std::io::ErrorKind::TimedOut), "[C17.1-pending-error-first] a pending time-out / cancel result is returned before any syscall");
+    } else {
+        // the first entry of the script that is not would-block decides
+        let k = unsafe { SYSCALLS } - 1;
+        let last = script[k];
+        assert!(last != 0, "[C17.1-returns-kernel-result] done() returned without a final kernel result");
+        assert!((k == 0 || script[0] == 0) && (k <= 1 || script[1] == 0), "[C17.1-returns-kernel-result] done() went on after a final kernel result");
+        match &res {
+            Ok(v) => assert!(last == 1 && check_ok(v), "[C17.1-ok-verbatim] a successful attempt is returned exactly as the kernel reported it"),
+            Err(e) => assert!(last == 2 && e.raw_os_error() == Some(FATAL), "[C17.1-error-verbatim] a kernel error is returned as that OS error"),
+        }
+        // one suspension per would-block that was not followed by an edge
+        let mut expected_yields = 0;
+        let mut i = 0;
+        while i < k {
+            if edge_after != i {
+                expected_yields += 1;
+            }
+            i += 1;
+        }
+        assert!(unsafe { YIELDS } == expected_yields, "[C17.1-yield-iff-no-edge] the caller suspends exactly after the failed attempts that were not followed by a readiness edge");
+    }
+    std::mem::forget(res);
+    sup::leave_coroutine();
+}
+
+/// the scenarios every operation is run against, ONE per harness (running several in one harness exhausts CBMC's memory):
+/// 0: would-block then a fatal error, no readiness edge (one suspension); 1: the same with a readiness edge right after the
+/// failed attempt (retry without suspending); 2: a pending time-out result; 3: would-block then success
+pub(crate) fn done_scenario_n<S, R, const N: usize, MK: Fn(&'static IoData, bool) -> S, DN: Fn(&mut S) -> std::io::Result<R>, CK: Fn(&R) -> bool>(mk: MK, done: DN, check_ok: CK) {
+    match N {
+        0 => done_scenario(mk, done, check_ok, [0, 2, 2], usize::MAX, false),
+        1 => done_scenario(mk, done, check_ok, [0, 2, 2], 0, false),
+        2 => done_scenario(mk, done, check_ok, [0, 2, 2], usize::MAX, true),
+        _ => done_scenario(mk, done, check_ok, [0, 1, 2], usize::MAX, false),
+    }
 }
